@@ -230,6 +230,91 @@ func body(v variant) func(s *vsched.Sched) {
 	}
 }
 
+// followerBody: a real follower controller that lags behind: the (scripted) leader sends n entries
+// whose advertised commit offset is already at or beyond them, so the follower's apply rounds run
+// concurrently with further appends and syncs. At quiescence the follower's database must be the
+// fold of log entries 0..c for its stored commit offset c, written one offset at a time.
+func followerBody(n int, commitAhead int64, syncData bool) func(s *vsched.Sched) {
+	return func(s *vsched.Sched) {
+		s.Explore(false)
+		env := oxc.NewEnv(s)
+		net := oxc.NewNet()
+		kvf := oxc.NewObsFactory(env.Dir)
+		fc, err := server.NewFollowerController(server.Config{NotificationsRetentionTime: time.Hour}, "ns", 1, env.WalFactory("n2", 64*1024, syncData), kvf)
+		if err != nil {
+			fail(s, "harness-setup", err.Error())
+			return
+		}
+		net.Peers["n2"] = fc
+		if _, err := fc.NewTerm(&proto.NewTermRequest{Namespace: "ns", Shard: 1, Term: 1, Options: &proto.NewTermOptions{EnableNotifications: true}}); err != nil {
+			fail(s, "harness-setup", err.Error())
+			return
+		}
+		stream, err := net.GetReplicateStream(context.Background(), "n2", "ns", 1, 1)
+		if err != nil {
+			fail(s, "harness-setup", err.Error())
+			return
+		}
+		var entries []*proto.LogEntry
+		for i := 0; i < n; i++ {
+			lev := &proto.LogEntryValue{Value: &proto.LogEntryValue_Requests{Requests: &proto.WriteRequests{Writes: []*proto.WriteRequest{
+				{Shard: oxh.I64(1), Puts: []*proto.PutRequest{{Key: fmt.Sprintf("k%d", i%2), Value: []byte(fmt.Sprintf("v%d", i))}}}}}}}
+			b, _ := lev.MarshalVT()
+			entries = append(entries, &proto.LogEntry{Term: 1, Offset: int64(i), Value: b, Timestamp: uint64(1000 + i)})
+		}
+		s.Settle()
+		// the requests are already in flight when exploration starts (no sender thread: fewer
+		// scheduling points, same behaviours of the follower's own threads)
+		for i, le := range entries {
+			c := int64(i) + commitAhead
+			if c > int64(n-1) {
+				c = int64(n - 1)
+			}
+			if err := stream.Send(&proto.Append{Term: 1, Entry: le, CommitOffset: c}); err != nil {
+				fail(s, "harness-setup", err.Error())
+				return
+			}
+		}
+		s.Explore(true)
+		s.Settle()
+		s.Explore(false)
+		var acks []int64
+		vsched.Go(func() {
+			for {
+				a, err := stream.Recv()
+				if err != nil {
+					return
+				}
+				acks = append(acks, a.Offset)
+			}
+		})
+		s.Settle()
+		db := server.VerifFollowerDB(fc)
+		c, err := db.ReadCommitOffset()
+		if err != nil {
+			fail(s, "harness-setup", err.Error())
+			return
+		}
+		adv := int64(n-1) + commitAhead // highest commit offset the leader advertised
+		if adv > int64(n-1) {
+			adv = int64(n - 1)
+		}
+		if len(acks) == n && c != adv {
+			fail(s, "committed-entry-not-applied", fmt.Sprintf("the follower acknowledged all %d entries, the leader advertised commit offset %d, but its database has applied up to %d", n, adv, c))
+		}
+		if d := oxc.FoldDiffers("ns", 1, db, entries, c); d != "" {
+			fail(s, "follower-state-not-fold-of-log", fmt.Sprintf("follower database (stored commit offset %d) differs from applying entries 0..%d in order:\n %s", c, c, d))
+		}
+		for _, seq := range kvf.CommitSequences() {
+			if msg := oxc.CheckSequential(seq, -1); msg != "" {
+				fail(s, "apply-out-of-order", "follower: "+msg)
+			}
+		}
+		s.Data = fmt.Sprintf("acks=%v commit=%d", acks, c)
+		_ = fc.Close()
+	}
+}
+
 var monitor func(s *vsched.Sched)
 
 func cfg() vsched.Config {
@@ -273,6 +358,18 @@ func scenarios(tier string) []sched.Scenario {
 	for _, x := range vs {
 		out = append(out, sched.Scenario{Name: x.v.name, Cfg: cfg(), MaxDev: x.dev, Body: body(x.v)})
 	}
+	if !withFollower {
+		return out
+	}
+	fd := 2
+	if tier == "thorough" {
+		fd = 3
+		out = append(out, sched.Scenario{Name: "follower-4appends-commit-ahead", Cfg: cfg(), MaxDev: 2, Body: followerBody(4, 2, true)})
+	}
+	// the most expensive scenario goes last: it inherits the budget the others did not use
+	out = append(out, sched.Scenario{Name: "follower-3appends-commit-ahead", Cfg: cfg(), MaxDev: fd, Body: followerBody(3, 2, true)},
+		sched.Scenario{Name: "follower-3appends-commit-lagging", Cfg: cfg(), MaxDev: fd, Body: followerBody(3, -1, true)},
+		sched.Scenario{Name: "follower-2appends-commit-ahead", Cfg: cfg(), MaxDev: fd + 1, Body: followerBody(2, 2, true)})
 	return out
 }
 
@@ -283,6 +380,7 @@ func Main(property string, stage2 bool, keep map[string]bool, rule string) int {
 	flag.Parse()
 	oxh.Quiet()
 	keepKeys = keep
+	withFollower = property == "C07"
 	if rule == "" {
 		rule = "every schedule of the harness threads (writers, WAL sync thread, follower cursors, ack receivers, scripted followers) with at most max_dev non-default scheduling choices, each run once on the real leader controller; an execution is non-trivial when it deviates from the default schedule at least once"
 	}
@@ -300,6 +398,9 @@ func Main(property string, stage2 bool, keep map[string]bool, rule string) int {
 }
 
 var keepKeys map[string]bool
+
+// withFollower adds the follower apply-loop scenarios (they belong to C07, not to C08)
+var withFollower bool
 
 // fail reports a failure unless the property being decided does not include that key.
 func fail(s *vsched.Sched, key, msg string) {
